@@ -26,6 +26,118 @@ class Snapshot:
         self.npoints, self.ncells = len(self.points), len(self.cells)
 
 
+class Res:
+    """What a module-level tool returns for arrays, ``(points, cells, cell_type)``, with the attribute names of a mesh (so that the
+    same post-conditions judge the array call styles and a reference mesh the oracle side builds itself)."""
+
+    def __init__(self, points, cells, cell_type):
+        self.points = np.asarray(points)
+        self.cells = np.asarray(cells)
+        self.cell_type = cell_type
+        self.dim = self.points.shape[1] if self.points.ndim == 2 else None
+        self.npoints, self.ncells = len(self.points), len(self.cells)
+
+    def copy(self, cell_type=None):
+        return Res(self.points, self.cells, self.cell_type if cell_type is None else cell_type)
+
+
+# ------------------------------------------------------------------------------------------ what a cell type *is*, oracle side
+# Number of edges / faces of the vertex cell and the VTK / meshio naming rule of the straight-sided families: the name of the
+# vertex cell, followed by the number of points per cell when mid-points were added.  Only the names below exist (a result with
+# another number of points per cell carries no name: ``cell_type=None``).
+EDGES = {"triangle": 3, "tetra": 6, "quad": 4, "hexahedron": 12}
+FACES = {"triangle": 1, "tetra": 4, "quad": 1, "hexahedron": 6}
+NAMED = {"triangle6", "triangle7", "tetra10", "tetra14", "tetra15", "quad8", "quad9", "hexahedron20", "hexahedron26", "hexahedron27"}
+SWEPT = {"vertex": ("line", 2), "line": ("quad", 4), "quad": ("hexahedron", 8)}
+_REF = {"quad": OC._QUAD, "hexahedron": OC._HEX}
+
+
+def type_name(base, ncols):
+    if ncols == OC.NV[base]:
+        return base
+    name = base + str(ncols)
+    return name if name in NAMED else None
+
+
+def subsets(base, kind):
+    """Vertex subsets (local numbers) that form the edges / faces / the volume of a vertex cell, stated geometrically: simplex ->
+    all pairs / triples; tensor cell -> vertices of the reference cell that differ in exactly one coordinate (edge) or share one
+    coordinate (face).  In two dimensions the 'face' is the cell itself (as for the library's mid-face points)."""
+    import itertools
+    nv = OC.NV[base]
+    if kind == "volumes" or (kind == "faces" and base in ("triangle", "quad")):
+        return [tuple(range(nv))]
+    if base in ("triangle", "tetra"):
+        return list(itertools.combinations(range(nv), 2 if kind == "edges" else 3))
+    X = _REF[base]
+    d = X.shape[1]
+    if kind == "edges":
+        return [(i, j) for i in range(nv) for j in range(i + 1, nv) if int((X[i] != X[j]).sum()) == 1]
+    return [tuple(np.where(X[:, k] == sgn)[0]) for k in range(d) for sgn in (-1.0, 1.0)]
+
+
+def expected_type(tool, m, a):
+    """(cell type name, points per cell, dimension of the points) a tool must return for this input, or None where nothing is
+    stated.  Written from the documentation of the tools, independent of their name tables."""
+    ct, dim = m.cell_type, m.points.shape[1]
+    ncol = m.cells.shape[1] if m.cells.ndim == 2 else None
+    if tool in ("rotate", "translate", "mirror", "flip", "merge_duplicate_points", "merge_duplicate_cells", "add_runouts"):
+        return ct, ncol, dim
+    if tool == "triangulate":
+        return {"quad": ("triangle", 3, dim), "hexahedron": ("tetra", 4, dim)}.get(ct)
+    if tool in ("expand", "revolve"):
+        if ct not in SWEPT:
+            return None
+        z = a.get("z", 1)
+        if tool == "expand" and ((np.isscalar(z) and a.get("n", 11) <= 1) or (not np.isscalar(z) and (a.get("n", 11) <= 1 or len(z) <= 1))):
+            return None
+        grow = 1 if a.get("expand_dim", True) else 0
+        if tool == "expand" and ct == "vertex":
+            grow -= 1  # a point becomes a line on the first axis
+        return SWEPT[ct] + (dim + grow,)
+    if ct not in OC.BASE or ncol is None:
+        return None
+    base = OC.BASE[ct]
+    nv = OC.NV[ct]
+    if tool in ("add_midpoints_edges", "add_midpoints_faces", "add_midpoints_volumes", "convert"):
+        if base not in EDGES:
+            return None
+        if tool == "add_midpoints_edges":
+            if ncol != nv:
+                return None
+            n_new = nv + EDGES[base]
+        elif tool == "add_midpoints_faces":
+            n_new = ncol + FACES[base]
+        elif tool == "add_midpoints_volumes":
+            n_new = ncol + 1
+        else:
+            if a.get("order") != 2 or ncol != nv:
+                return None
+            n_new = nv + EDGES[base] + (FACES[base] if a.get("calc_midfaces") else 0) + (1 if a.get("calc_midvolumes") else 0)
+        given = a.get("cell_type") if tool != "convert" else None
+        return (given if given is not None else type_name(base, n_new)), n_new, dim
+    if tool == "disconnect":
+        ppc = a.get("points_per_cell")
+        return (ct, ncol, dim) if ppc is None else (None, int(ppc), dim)
+    return None
+
+
+def result_type(run, tool, m, out, a):
+    """The label, the number of points per cell and the dimension of a result are what the documentation says for this input: a
+    wrong label silently switches the other clauses off (the oracle measures by label) and selects a wrong element downstream."""
+    exp = expected_type(tool, m, a)
+    if exp is None:
+        return True
+    got = (out.cell_type, out.cells.shape[1] if out.cells.ndim == 2 else None, out.points.shape[1] if out.points.ndim == 2 else None)
+    if got == tuple(exp):
+        run.ok("mesh." + tool, unit=tool + ":result-type", config=(tool, m.cell_type, "result-type"))
+        return True
+    run.fail("mesh." + tool, "tool=%s celltype=%s clause=result-type" % (tool, m.cell_type),
+             "%s of a %s mesh returns (cell type, points per cell, dimension) = %s, expected %s" % (tool, m.cell_type, got, tuple(exp)),
+             unit=tool + ":result-type")
+    return False
+
+
 def rodrigues(angle_deg, dim, axis):
     """Right-handed rotation matrix about a coordinate axis (2d: in the plane), written out independently."""
     t = np.deg2rad(angle_deg)
@@ -89,7 +201,22 @@ def no_unused_no_duplicates(run, tool, mesh, decimals=9):
 # ------------------------------------------------------------------------------------------ tool post-conditions
 def post_rigid(run, tool, m, out, a):
     if a.get("mask") is not None:
-        run.skip("mesh." + tool, "partial transformation (mask)")
+        # partial rotation: the selected points sit where the rotation puts them, every other point and the connectivity stay
+        # (no statement about volumes: the body is no longer moved rigidly)
+        dim = m.points.shape[1]
+        if tool != "rotate" or "angle_deg" not in a or a.get("axis", 0) not in (0, 1, 2) or np.shape(out.points) != np.shape(m.points):
+            run.skip("mesh." + tool, "partial transformation (mask)")
+            return
+        sel = np.zeros(len(m.points), bool)
+        sel[np.asarray(a["mask"])] = True
+        c = np.zeros(dim) if a.get("center") is None else np.asarray(a["center"], float)[:dim]
+        ref = m.points.copy()
+        ref[sel] = ((m.points - c) @ rodrigues(float(a["angle_deg"]), dim, int(a.get("axis", 0))).T + c)[sel]
+        run.compare("mesh." + tool, "tool=%s clause=masked-positions" % tool, maxabs(out.points - ref) / max(maxabs(ref), 1e-300), TOL,
+                    "rotate(mask=): the selected points are not where the rotation puts them, or other points moved", unit=tool + ":masked-positions",
+                    config=(tool, m.cell_type, "mask"))
+        if not np.array_equal(out.cells, m.cells):
+            run.fail("mesh." + tool, "tool=%s clause=cells-unchanged" % tool, "%s changed the connectivity" % tool)
         return
     v0, v1 = vols(m), _positive(run, tool, out)
     if v1 is None:
@@ -171,6 +298,14 @@ def post_triangulate(run, tool, m, out, a):
     v1 = _positive(run, tool, out, " mode=%s" % a.get("mode"))
     if v1 is None:
         return
+    # a quad gives two triangles; a hexahedron five tetrahedra in mode 0 (no diagonal through the seventh vertex) and six in mode 3
+    want = 2 if m.cell_type == "quad" else {0: 5, 3: 6}.get(a.get("mode"))
+    if want is not None:
+        if len(v1) == want * len(v0):
+            run.ok("mesh.triangulate", unit="triangulate:cell-count")
+        else:
+            run.fail("mesh.triangulate", "tool=triangulate celltype=%s mode=%s clause=cell-count" % (m.cell_type, a.get("mode")),
+                     "triangulate: %d cells from %d, expected %d per cell" % (len(v1), len(v0), want))
     k = len(v1) // len(v0)
     per_cell = v1.reshape(len(v0), k).sum(1)
     run.compare("mesh.triangulate", "tool=triangulate celltype=%s mode=%s clause=volume" % (m.cell_type, a.get("mode")),
@@ -181,23 +316,93 @@ def post_triangulate(run, tool, m, out, a):
                         "volume": float(v0.sum())})
 
 
+def _set_distance(A, B):
+    """Largest distance of a point of one set to the nearest point of the other one (both directions)."""
+    from scipy.spatial import cKDTree
+    if len(A) == 0 or len(B) == 0:
+        return np.inf
+    return max(float(cKDTree(B).query(A)[0].max()), float(cKDTree(A).query(B)[0].max()))
+
+
+def _expand_general(run, m, out, a):
+    """Every documented argument of ``expand``: any axis, with or without a new coordinate, a body embedded in the space it is
+    expanded in, any (also negative or decreasing) layer positions.  Reference: the points of the body, moved to every layer along
+    the unit vector of the axis; a cell of layer k has the measure |t_k+1 - t_k| times the measure of its base cell projected
+    perpendicular to the axis (line: d x e, quad: vector area . e).  Signs are judged for uniformity only - which sense of the
+    sweep is the positive one is stated (and judged) for the default arguments alone."""
+    ct = m.cell_type
+    z, n, axis, ed = a.get("z", 1), a.get("n", 11), a.get("axis", -1), a.get("expand_dim", True)
+    if ct not in SWEPT or m.cells.ndim != 2 or m.cells.shape[1] != {"vertex": 1, "line": 2, "quad": 4}[ct]:
+        run.skip("mesh.expand", "unsupported argument combination for the oracle")
+        return
+    t = np.linspace(0, z, n) if np.isscalar(z) else np.asarray(z, float)
+    if (np.isscalar(z) and n < 2) or len(t) < 2 or t.ndim != 1:
+        run.skip("mesh.expand", "non-positive thickness / single layer")
+        return
+    dim = m.points.shape[1]
+    dim_new = dim + (1 if ed else 0)
+    v1 = vols(out)
+    if ct == "vertex":
+        # a point becomes a line: lengths of the layers (where the line starts is not stated)
+        if v1 is None or dim != 1:
+            run.skip("mesh.expand", "unsupported argument combination for the oracle")
+            return
+        exp = np.repeat(np.abs(np.diff(t)), len(m.points))
+        run.compare("mesh.expand", "tool=expand celltype=vertex clause=layer-lengths",
+                    maxabs(np.sort(np.abs(v1)) - np.sort(exp)) / maxabs(exp) if len(v1) == len(exp) else np.inf, TOL,
+                    "expand of a point: the line cells do not have the lengths of the layers", unit="expand:vertex")
+        return
+    if not (-dim_new <= axis < dim_new) or dim_new != OC.DIM[ct] + 1 or out.points.ndim != 2 or out.points.shape[1] != dim_new or v1 is None:
+        run.skip("mesh.expand", "unsupported argument combination for the oracle")
+        return
+    P = np.pad(np.asarray(m.points, float), ((0, 0), (0, dim_new - dim)))
+    e = np.zeros(dim_new)
+    e[axis] = 1.0
+    X = P[m.cells]
+    if ct == "line":
+        d = X[:, 1] - X[:, 0]
+        proj = d[:, 0] * e[1] - d[:, 1] * e[0]
+        size = np.linalg.norm(d, axis=1)
+    else:
+        A = 0.5 * np.cross(X[:, 2] - X[:, 0], X[:, 3] - X[:, 1])
+        proj = A @ e
+        size = np.linalg.norm(A, axis=1)
+    if np.abs(proj).min() < 1e-6 * size.max() or np.abs(np.diff(t)).min() <= 1e-9 * max(np.abs(np.diff(t)).max(), 1e-300):
+        run.skip("mesh.expand", "sweep direction lies in the body / coincident layers")
+        return
+    ref = (P[None] + t[:, None, None] * e).reshape(-1, dim_new)
+    run.compare("mesh.expand", "tool=expand clause=points-of-every-layer", _set_distance(ref, out.points) / max(maxabs(ref), 1e-300)
+                if len(ref) == len(out.points) else np.inf, 1e-12,
+                "expand: the points of the result are not the points of the body moved to every layer along the axis",
+                unit="expand:general-positions", config=("expand", ct, "axis=%s" % axis, "expand_dim=%s" % ed))
+    exp = (np.diff(t)[:, None] * proj[None, :]).ravel()
+    run.compare("mesh.expand", "tool=expand clause=layer-volumes-any-direction",
+                maxabs(np.sort(np.abs(v1)) - np.sort(np.abs(exp))) / maxabs(exp) if len(v1) == len(exp) else np.inf, TOL,
+                "expand: the cells do not have the measures |layer thickness| x projected base measure", unit="expand:general-volumes",
+                config=("expand", ct, "axis=%s" % axis, "expand_dim=%s" % ed, "sense=%s" % ("+" if np.all(np.diff(t) > 0) else "-")))
+    if (np.all(exp > 0) or np.all(exp < 0)) and len(v1) == len(exp):
+        if np.all(v1 > 0) or np.all(v1 < 0):
+            run.ok("mesh.expand", unit="expand:uniform-orientation")
+        else:
+            run.fail("mesh.expand", "tool=expand celltype=%s clause=uniform-orientation" % ct,
+                     "expand: cells of both orientations in the sweep of a uniformly oriented body (%d negative of %d)" % (int((v1 < 0).sum()), len(v1)))
+
+
 def post_expand(run, tool, m, out, a):
     z = a.get("z", 1)
     n = a.get("n", 11)
-    if m.cell_type not in ("line", "quad") or a.get("axis", -1) != -1 or not a.get("expand_dim", True):
-        run.skip("mesh.expand", "unsupported argument combination for the oracle")
+    default = m.cell_type in ("line", "quad") and a.get("axis", -1) == -1 and bool(a.get("expand_dim", True)) and valid(m)
+    if default:
+        if np.isscalar(z):
+            default = n >= 2 and z > 0
+        else:
+            default = np.asarray(z).ndim == 1 and len(z) >= 2 and bool(np.all(np.diff(np.asarray(z, float)) > 0))
+    # the general reference (all arguments); for the default sense of the sweep the orientation and the layer order are stated too
+    _expand_general(run, m, out, a)
+    if not default:
         return
-    if np.isscalar(z):
-        if n < 2 or z <= 0:
-            run.skip("mesh.expand", "non-positive thickness / single layer")
-            return
-        thick = float(z)
-    else:
-        zz = np.asarray(z, float)
-        if np.any(np.diff(zz) <= 0):
-            run.skip("mesh.expand", "non-increasing layer positions")
-            return
-        thick = float(zz[-1] - zz[0])
+    thick = float(z) if np.isscalar(z) else float(np.asarray(z, float)[-1] - np.asarray(z, float)[0])
+    zz = None if np.isscalar(z) else np.asarray(z, float)
     v0, v1 = vols(m), _positive(run, tool, out)
     if v1 is None:
         return
@@ -215,10 +420,52 @@ def post_expand(run, tool, m, out, a):
             sample={"tool": "expand", "cell_type": m.cell_type, "layers": n, "thickness": thick})
 
 
+def _revolve_vertex(run, m, out, a):
+    """Points become a polyline on their circle: layer k is the point turned by the k-th angle (right-handed, in the plane), the
+    line cells join consecutive layers, and a full turn closes the ring on its first layer."""
+    phi, n = a.get("phi", 180), a.get("n", 11)
+    ang = np.linspace(0, phi, n) if np.isscalar(phi) else np.asarray(phi, float)
+    if m.points.shape[1] != 1 or not a.get("expand_dim", True) or len(ang) < 2 or out.points.ndim != 2 or out.points.shape[1] != 2 or np.any(np.diff(ang) == 0):
+        run.skip("mesh.revolve", "unsupported cell type / axis for the oracle")
+        return
+    if ang[-1] - ang[0] != 360.0 and abs(abs(ang[-1] - ang[0]) - 360.0) < 1e-6:
+        run.skip("mesh.revolve", "angles miss the full turn by round-off")
+        return
+    closed = bool(ang[-1] - ang[0] == 360.0)
+    lay = ang[:-1] if closed else ang
+    x = np.asarray(m.points, float)[:, 0]
+    ref = np.stack([np.outer(np.cos(np.deg2rad(lay)), x), np.outer(np.sin(np.deg2rad(lay)), x)], axis=-1)  # layer, point, xy
+    R = max(maxabs(x), 1e-300)
+    if np.abs(x).min() < 1e-9 * R:
+        run.skip("mesh.revolve", "body crosses the rotation axis")
+        return
+    run.compare("mesh.revolve", "tool=revolve celltype=vertex clause=points-on-the-circle",
+                _set_distance(ref.reshape(-1, 2), out.points) / R if len(out.points) == ref.shape[0] * ref.shape[1] else np.inf, 1e-12,
+                "revolve of points: the result's points are not the points turned by the given angles", unit="revolve:vertex")
+    # every line cell is the chord between two consecutive layers of one point
+    X = out.points[out.cells]
+    seg = np.sort(np.linalg.norm(X[:, 1] - X[:, 0], axis=1))
+    dphi = np.diff(ang)
+    exp = np.sort(np.outer(2 * np.abs(np.sin(np.deg2rad(dphi) / 2)), np.abs(x)).ravel())
+    run.compare("mesh.revolve", "tool=revolve celltype=vertex clause=chords", maxabs(seg - exp) / R if len(seg) == len(exp) else np.inf, 1e-12,
+                "revolve of points: the line cells are not the chords between consecutive layers", unit="revolve:vertex")
+
+
 def post_revolve(run, tool, m, out, a):
     phi, n, axis = a.get("phi", 180), a.get("n", 11), a.get("axis", 0)
+    if m.cell_type == "vertex":
+        _revolve_vertex(run, m, out, a)
+        return
     if not a.get("expand_dim", True):
-        run.skip("mesh.revolve", "expand_dim=False")
+        # a body that is already embedded in the space it is revolved in: judged when it lies in the plane of its own coordinates
+        # (the last coordinate is zero), then it is the same sweep as for the body without that coordinate
+        if m.cell_type in ("line", "quad") and m.points.shape[1] == OC.DIM[m.cell_type] + 1 and maxabs(m.points[:, -1]) == 0:
+            m = Res(m.points[:, :-1], m.cells, m.cell_type)
+        else:
+            run.skip("mesh.revolve", "expand_dim=False")
+            return
+    if not valid(m):
+        run.skip("mesh.revolve", "input mesh not valid / not supported by the oracle")
         return
     if np.isscalar(phi):
         ang = np.linspace(0, phi, n)
@@ -261,6 +508,18 @@ def post_revolve(run, tool, m, out, a):
         v1 = _positive(run, tool, out, " celltype=%s axis=%s" % (m.cell_type, axis))
     if v1 is None:
         return
+    # a sweep of k layers has k times the points of the body; a full turn in the positive sense ends on its first layer (one layer
+    # less, no second set of points at the seam)
+    # (angles that miss the full turn by round-off are not judged: whether they close is not stated)
+    if not documented_negative and (ang[-1] - ang[0] == 360.0 or abs((ang[-1] - ang[0]) - 360.0) > 1e-6):
+        closed = bool(ang[-1] - ang[0] == 360.0)
+        nexp = (len(ang) - (1 if closed else 0)) * len(m.points)
+        if len(out.points) == nexp:
+            run.ok("mesh.revolve", unit="revolve:point-count", config=("revolve", "closed" if closed else "open", "point-count"))
+        else:
+            run.fail("mesh.revolve", "tool=revolve clause=point-count%s" % (" closed-ring" if closed else ""),
+                     "revolve: %d points for %d angles%s and a body of %d points (expected %d)"
+                     % (len(out.points), len(ang), " (full turn)" if closed else "", len(m.points), nexp), unit="revolve:point-count")
     if len(v1) == len(dphi) * m.ncells:
         seg = np.abs(v1).reshape(len(dphi), m.ncells).sum(1)
         run.compare("mesh.revolve", "tool=revolve clause=segment-volumes axis=%s" % axis, maxabs(seg - np.sin(np.deg2rad(dphi)) * integral) / abs(expected), TOL,
@@ -273,6 +532,51 @@ def post_revolve(run, tool, m, out, a):
 LAYOUT = {"triangle6": ("QuadraticTriangle", "triangle"), "tetra10": ("QuadraticTetra", "tetra"),
           "quad8": ("QuadraticQuad", "quad"), "quad9": ("BiQuadraticQuad", "quad"),
           "hexahedron20": ("QuadraticHexahedron", "hexahedron"), "hexahedron27": ("TriQuadraticHexahedron", "hexahedron")}
+
+
+def _centroid_sets(run, tool, m, Pv, G, new_ids, n_new_points, kinds):
+    """The inserted points of a cell are exactly the centroids of its edges / faces / of the cell (one each, in any order: the
+    order is the element-layout clause), and the mesh holds one inserted point per distinct edge / face (shared by the cells that
+    share it) resp. one per cell."""
+    base = OC.BASE[m.cell_type]
+    nv = OC.NV[m.cell_type]
+    sub = [(k, sset) for k in kinds for sset in subsets(base, k)]
+    E = np.stack([Pv[:, list(sset)].mean(1) for _, sset in sub], axis=1)  # cell, subset, dim
+    h = np.linalg.norm(Pv.max(1) - Pv.min(1), axis=1).max()
+    if G.shape[1] == E.shape[1]:
+        D = np.linalg.norm(G[:, :, None, :] - E[:, None, :, :], axis=-1)
+        err = max(float(D.min(2).max()), float(D.min(1).max())) / h
+    else:
+        err = np.inf
+    run.compare("mesh." + tool, "tool=%s celltype=%s clause=centroid-set" % (tool, m.cell_type), err, 1e-12,
+                "%s: the inserted points of a cell are not the centroids of its %s (one each)" % (tool, " + ".join(kinds)),
+                unit=tool + ":centroid-set", config=(tool, m.cell_type, "centroid-set") + tuple(kinds))
+    V = np.asarray(m.cells)[:, :nv]
+    if len({tuple(sorted(r)) for r in V.tolist()}) != len(V):
+        run.skip("mesh." + tool, "duplicate cells in the input (sharing of the inserted points not stated)")
+        return
+    want = 0
+    for k in kinds:
+        if k == "volumes":
+            want += len(V)
+        else:
+            want += len({tuple(sorted(r[list(sset)])) for sset in subsets(base, k) for r in V})
+    have = len(np.unique(new_ids))
+    if want == have == n_new_points:
+        run.ok("mesh." + tool, unit=tool + ":shared-points", config=(tool, m.cell_type, "shared-points"))
+    else:
+        run.fail("mesh." + tool, "tool=%s celltype=%s clause=one-point-per-entity" % (tool, m.cell_type),
+                 "%s: %d points were inserted, %d of them are used, for %d distinct %s of the mesh" % (tool, n_new_points, have, want, " + ".join(kinds)),
+                 unit=tool + ":shared-points")
+
+
+def post_collect(run, tool, m, out, a):
+    """``collect_edges / faces / volumes``: the points of the result are the mid-points, its cell array lists them cell by cell."""
+    if m.cell_type not in OC.BASE or OC.BASE[m.cell_type] not in EDGES or out.cells.ndim != 2 or out.cells.size == 0 or out.cells.max() >= len(out.points):
+        run.skip("mesh." + tool, "unsupported source cell type")
+        return
+    Pv = np.asarray(m.points, float)[m.cells[:, : OC.NV[m.cell_type]]]
+    _centroid_sets(run, tool, m, Pv, np.asarray(out.points, float)[out.cells], out.cells, len(out.points), (tool.split("_")[1],))
 
 
 def post_midpoints(run, tool, m, out, a):
@@ -310,6 +614,11 @@ def post_midpoints(run, tool, m, out, a):
         run.compare("mesh." + tool, "tool=%s celltype=%s clause=centroid" % (tool, m.cell_type), worst / h, 1e-12,
                     "%s: an inserted point is not the centroid of an edge/face/cell of its cell" % tool,
                     unit=tool + ":centroid", config=(tool, m.cell_type, "centroid"))
+    # (a') ... exactly the centroids of the cell's edges / faces / of the cell, one point per distinct entity of the mesh
+    kinds = {"add_midpoints_edges": ("edges",), "add_midpoints_faces": ("faces",), "add_midpoints_volumes": ("volumes",),
+             "convert": ("edges",) + (("faces",) if a.get("calc_midfaces") else ()) + (("volumes",) if a.get("calc_midvolumes") else ())}.get(tool)
+    if kinds and base in EDGES and out.cells.shape[1] > ncol0:
+        _centroid_sets(run, tool, m, Pv, out.points[out.cells[:, ncol0:]], out.cells[:, ncol0:], len(out.points) - len(m.points), kinds)
     # (b) element-layout clause
     if out.cell_type in LAYOUT and out.cells.shape[1] == len(getattr(fem.element, LAYOUT[out.cell_type][0])().points):
         el = getattr(fem.element, LAYOUT[out.cell_type][0])()
@@ -326,19 +635,48 @@ def post_midpoints(run, tool, m, out, a):
 
 
 def post_convert(run, tool, m, out, a):
+    if a.get("order") == 0:
+        # documented: one point per cell, the mean of all points of the cell (zeros without ``calc_points``)
+        X = np.asarray(m.points, float)[m.cells]
+        ref = X.mean(1) if a.get("calc_points") else np.zeros((len(m.cells), m.points.shape[1]))
+        h = max(float(np.linalg.norm(X.max(1) - X.min(1), axis=1).max()), 1e-300)
+        ok = np.shape(out.points) == ref.shape and np.shape(out.cells) == (len(m.cells), 1) and out.cells.max() < len(ref)
+        run.compare("mesh.convert", "tool=convert order=0 clause=cell-means", maxabs(np.asarray(out.points, float)[out.cells[:, 0]] - ref) / h if ok else np.inf, 1e-12,
+                    "convert(order=0): the point of a cell is not the mean of the cell's points%s" % ("" if a.get("calc_points") else " / not zero"),
+                    unit="convert:order0", config=("convert", m.cell_type, "order=0", bool(a.get("calc_points"))))
+        return
     if a.get("order") != 2:
         run.skip("mesh.convert", "order != 2")
         return
     post_midpoints(run, tool, m, out, a)
 
 
+def post_merge_cells(run, tool, m, out, a):
+    """``merge_duplicate_cells``: the points stay, every distinct cell remains exactly once."""
+    rows = {tuple(r) for r in np.asarray(m.cells).tolist()}
+    got = [tuple(r) for r in np.asarray(out.cells).tolist()]
+    if np.array_equal(out.points, m.points) and len(got) == len(rows) and set(got) == rows:
+        run.ok("mesh." + tool, unit="merge_duplicate_cells:distinct-cells", config=(tool, m.cell_type))
+    else:
+        run.fail("mesh." + tool, "tool=merge_duplicate_cells clause=distinct-cells",
+                 "merge_duplicate_cells: %d cells remain of %d distinct ones (or the points changed)" % (len(got), len(rows)))
+    v1 = _positive(run, tool, out)
+    if v1 is not None:
+        idx = [np.asarray(m.cells).tolist().index(list(r)) for r in sorted(rows)]
+        _volume(run, tool, float(v1.sum()), float(vols(m)[idx].sum()), ctype=m.cell_type)
+
+
 def post_disconnect(run, tool, m, out, a):
-    if a.get("points_per_cell") is not None or not a.get("calc_points", True):
+    ppc = a.get("points_per_cell")
+    if not a.get("calc_points", True) or (ppc is not None and ppc != OC.NV.get(m.cell_type)):
         run.skip("mesh.disconnect", "reduced / uncalculated points")
         return
     v0 = vols(m)
     out2 = out
-    if out.cell_type is None:
+    if ppc is not None:
+        # the first points of every cell are its vertices: the disconnected vertex cells
+        out2 = Res(out.points, out.cells, OC.BASE[m.cell_type])
+    elif out.cell_type is None:
         out2 = out.copy(cell_type=m.cell_type)
     v1 = _positive(run, tool, out2)
     if v1 is None:
@@ -378,13 +716,16 @@ def post_merge(run, tool, m, out, a):
                      "merge: two points remain closer (%.3e) than the rounding tolerance" % mind)
     v0, v1 = vols(m), vols(out)
     if v0 is not None and v1 is not None and valid(m):
+        # (rounding moves the points by an absolute amount: relative to the covered volume it counts by the size of the body)
+        L = max(float(np.ptp(np.asarray(m.points, float), axis=0).max()), 1e-300)
         run.compare("mesh.merge_duplicate_points", "tool=merge_duplicate_points clause=volume",
                     abs(v1.sum() - v0.sum()) / abs(v0.sum()),
-                    1e-11 if dec is None else 10.0 ** (-dec) * 10 * len(v0), "merge: covered volume changed",
+                    1e-11 if dec is None else 10.0 ** (-dec) * 10 * len(v0) * max(1.0, 0.5 / L), "merge: covered volume changed",
                     unit="merge:volume")
 
 
 def post_concat(run, tool, meshes, out):
+    # (``meshes`` are the inputs as they were handed over: copies taken before the call)
     if out.cells.size and (out.cells.min() < 0 or out.cells.max() >= len(out.points)):
         run.fail("mesh." + tool, "tool=%s clause=connectivity-in-range" % tool,
                  "%s: the connectivity refers to point %d of %d" % (tool, int(out.cells.max()), len(out.points)))
@@ -399,6 +740,13 @@ def post_concat(run, tool, meshes, out):
     if any(v is None for v in vs) or len({m.cell_type for m in meshes}) != 1:
         run.skip("mesh." + tool, "unsupported inputs")
         return
+    got = (out.cell_type, out.cells.shape[1] if out.cells.ndim == 2 else None, out.points.shape[1])
+    exp = (meshes[0].cell_type, meshes[0].cells.shape[1], meshes[0].points.shape[1])
+    if got == exp:
+        run.ok("mesh." + tool, unit=tool + ":result-type")
+    else:
+        run.fail("mesh." + tool, "tool=%s celltype=%s clause=result-type" % (tool, meshes[0].cell_type),
+                 "%s returns (cell type, points per cell, dimension) = %s for parts of %s" % (tool, got, exp))
     v1 = _positive(run, tool, out)
     if v1 is None:
         return
@@ -407,6 +755,104 @@ def post_concat(run, tool, meshes, out):
                 maxabs(v1 - v0) / maxabs(v0) if len(v1) == len(v0) else np.inf, TOL,
                 "%s: cell volumes of the result differ from those of the inputs" % tool, unit=tool + ":volume",
                 config=(tool, out.cell_type))
+
+
+def post_runouts(run, tool, m, out, a):
+    """``add_runouts``: the cross-sections perpendicular to ``axis`` are scaled about the centre point, growing from the plane of the
+    centre point to the two ends; the documented amounts: at the ends the i-th perpendicular coordinate is enlarged by ``values[i]``
+    (10 % by default), with ``normalize`` the ends keep their shape.  The coordinate along the axis and the connectivity stay."""
+    dim = m.points.shape[1]
+    axis = a.get("axis", 0)
+    mask = a.get("mask", slice(None))
+    if not (isinstance(mask, slice) and mask == slice(None)) or axis not in range(dim) or dim < 2 or np.shape(out.points) != np.shape(m.points):
+        run.skip("mesh." + tool, "partial transformation (mask)")
+        return
+    X = np.asarray(m.points, float)
+    L = max(float(np.ptp(X, axis=0).max()), 1e-300)
+    run.compare("mesh." + tool, "tool=add_runouts clause=axis-coordinate-and-cells", maxabs(out.points[:, axis] - X[:, axis]) / L
+                + float(not np.array_equal(out.cells, m.cells)), 1e-13,
+                "add_runouts: the coordinate along the axis or the connectivity changed", unit="add_runouts:axis")
+    values = np.array(a.get("values", [0.1, 0.1]), float).ravel()
+    c = np.zeros(dim)
+    cc = np.array(a.get("centerpoint", [0, 0, 0]), float).ravel()[:dim]
+    c[: len(cc)] = cc
+    perp = [k for k in range(dim) if k != axis]
+    x = X[:, axis]
+    top, bottom = float(x.max()), float(x.min())
+    at_end = min(abs(c[axis] - top), abs(c[axis] - bottom)) <= 1e-12 * L
+    at_mid = abs(c[axis] - 0.5 * (top + bottom)) <= 1e-12 * L
+    if (at_end or at_mid) and len(values) >= len(perp) and top > bottom and (not a.get("normalize", False) or np.all(values[: len(perp)] >= 0)):
+        half = (top - bottom) if at_end else 0.5 * (top - bottom)
+        ends = np.abs(np.abs(x - c[axis]) - half) <= 1e-12 * L
+        ref = X[ends].copy()
+        if not a.get("normalize", False):
+            for i, k in enumerate(perp):
+                ref[:, k] = c[k] + (X[ends, k] - c[k]) * (1 + values[i])
+        run.compare("mesh." + tool, "tool=add_runouts clause=end-sections normalize=%s" % bool(a.get("normalize", False)),
+                    maxabs(out.points[ends] - ref) / L, 1e-12,
+                    "add_runouts: the end sections are not enlarged by the given relative amounts (normalize: do not keep their shape)",
+                    unit="add_runouts:ends", config=("add_runouts", m.cell_type, axis, bool(a.get("normalize", False))))
+    else:
+        run.skip("mesh." + tool, "centre point neither at mid-height nor at an end / negative normalized amounts")
+    if np.all(np.abs(values) <= 0.5):
+        _positive(run, tool, out)
+
+
+def post_fill_between(run, tool, m, o, out, a):
+    """``fill_between``: layers at the relative positions t_k in (-1, 1) between the two meshes, x_k = (1 - t_k)/2 bottom + (1 + t_k)/2
+    top; the cells are the columns between corresponding cells of the two meshes, cut at the layers.  Reference: these layers and
+    columns, built here from the two inputs and measured by the oracle (the interpolation is linear in t, so the sub-columns tile
+    the column exactly)."""
+    n = a.get("n", 11)
+    ct = m.cell_type
+    if ct not in ("line", "quad") or o.cell_type != ct or m.points.shape != o.points.shape or m.points.shape[1] != OC.DIM[ct] + 1 \
+            or m.cells.shape != o.cells.shape or m.cells.shape[1] != OC.NV[ct]:
+        run.skip("mesh.fill_between", "unsupported inputs")
+        return
+    t = np.asarray(n, float) if hasattr(n, "__len__") else np.linspace(-1, 1, int(n))
+    if t.ndim != 1 or len(t) < 2 or np.any(np.diff(t) <= 0) or t[0] < -1 or t[-1] > 1:
+        run.skip("mesh.fill_between", "layer positions not increasing inside (-1, 1)")
+        return
+    B, T = np.asarray(m.points, float), np.asarray(o.points, float)
+    lay = 0.5 * (1 - t)[:, None, None] * B[None] + 0.5 * (1 + t)[:, None, None] * T[None]  # layer, point, dim
+    new_type = SWEPT[ct][0]
+    npts = len(B)
+
+    def columns(lo, hi):
+        # VTK convention: quad = bottom edge, then the top edge backwards; hexahedron = bottom face, then the top face
+        top = (m.cells + npts)[:, ::-1] if ct == "line" else m.cells + npts
+        return OC.signed_volumes(np.vstack([lo, hi]), np.hstack([m.cells, top]), new_type)
+    vcol = columns(B, T)
+    if not np.all(vcol > 0) or not np.all(np.isfinite(vcol)):
+        run.skip("mesh.fill_between", "the columns between the two meshes are not positively oriented")
+        return
+    got = (out.cell_type, out.cells.shape[1] if out.cells.ndim == 2 else None, out.points.shape[1] if out.points.ndim == 2 else None)
+    if got == (new_type, SWEPT[ct][1], m.points.shape[1]):
+        run.ok("mesh.fill_between", unit="fill_between:result-type")
+    else:
+        run.fail("mesh.fill_between", "tool=fill_between celltype=%s clause=result-type" % ct,
+                 "fill_between of two %s meshes returns (cell type, points per cell, dimension) = %s" % (ct, got))
+        return
+    L = max(float(np.ptp(np.vstack([B, T]), axis=0).max()), 1e-300)
+    ref = lay.reshape(-1, lay.shape[-1])
+    run.compare("mesh.fill_between", "tool=fill_between celltype=%s clause=layer-points" % ct,
+                _set_distance(ref, out.points) / L if len(ref) == len(out.points) else np.inf, 1e-12,
+                "fill_between: the points are not the layers at the given relative positions between the two meshes",
+                unit="fill_between:layers", config=("fill_between", ct, "array-n" if hasattr(n, "__len__") else "int-n", "layers"))
+    v1 = vols(out)
+    exp = np.concatenate([columns(lay[k], lay[k + 1]) for k in range(len(t) - 1)])
+    if not np.all(exp > 0):
+        run.skip("mesh.fill_between", "the columns between the two meshes are not positively oriented")
+    elif np.all(v1 > 0):
+        run.ok("mesh.fill_between", unit="fill_between:hook-orientation", config=("fill_between", ct, "orientation"))
+    else:
+        run.fail("mesh.fill_between", "tool=fill_between celltype=%s clause=orientation" % ct,
+                 "fill_between: %d cell(s) of non-positive volume between two meshes with positively oriented columns" % int((v1 <= 0).sum()))
+    run.compare("mesh.fill_between", "tool=fill_between celltype=%s clause=cell-volumes" % ct,
+                maxabs(np.sort(v1) - np.sort(exp)) / maxabs(exp) if len(v1) == len(exp) else np.inf, TOL,
+                "fill_between: the cells are not the columns between corresponding cells, cut at the layers", unit="fill_between:cells",
+                config=("fill_between", ct, "array-n" if hasattr(n, "__len__") else "int-n", "cells"))
+    _volume(run, "fill_between", float(v1.sum()), float(columns(lay[0], lay[-1]).sum()), ctype=ct)
 
 
 # ------------------------------------------------------------------------------------------ generators
@@ -466,6 +912,7 @@ def post_generator(run, obj, a):
         rel = obj.points - c
         rad = np.linalg.norm(rel, axis=1)
         sec = list(a["sections"])
+        rtol_circle = 1e-9 if a.get("decimals", 10) >= 10 else 100 * 10.0 ** (-a["decimals"])
         if sorted(sec) == [0, 90, 180, 270]:
             edges = {}
             for cell in obj.cells:
@@ -473,14 +920,60 @@ def post_generator(run, obj, a):
                     e = (int(cell[i]), int(cell[(i + 1) % 4]))
                     edges[frozenset(e)] = edges.get(frozenset(e), 0) + 1
             bpts = sorted({p for e, k in edges.items() if k == 1 for p in e})
-            run.compare(mon, "generator=Circle clause=boundary-on-circle", maxabs(rad[bpts] - R) / R, 1e-9,
+            # (the unit circle is rounded to ``decimals`` digits by documented argument; 1e-9 for the default of 10)
+            run.compare(mon, "generator=Circle clause=boundary-on-circle", maxabs(rad[bpts] - R) / R, rtol_circle,
                         "Circle: boundary points do not lie on the circle", unit=tool + ":boundary")
             ang = np.arctan2(rel[bpts, 1], rel[bpts, 0])
             o = np.argsort(ang)
             P = rel[bpts][o]
             expected = 0.5 * float(np.sum(P[:, 0] * np.roll(P[:, 1], -1) - np.roll(P[:, 0], -1) * P[:, 1]))
-        if rad.max() > R * (1 + 1e-9):
+        if rad.max() > R * (1 + rtol_circle):
             run.fail(mon, "generator=Circle clause=inside", "Circle: a point lies outside the radius")
+    # the point counts per axis are arguments too: every node of the uniform grid a + (b - a) i / (n - 1) exactly once, prod(n - 1) cells
+    if name in ("Line", "Rectangle", "Cube") and expected is not None:
+        d = len(lo)
+        nn = np.atleast_1d(np.asarray(a["n"]))
+        nn = (np.full(d, int(nn[0])) if nn.size == 1 else nn.astype(int))
+        if nn.size == d and np.all(nn >= 2) and obj.points.shape[1] == d:
+            frac = (np.asarray(obj.points, float) - lo) / (hi - lo) * (nn - 1)
+            idx = np.rint(frac)
+            on_grid = maxabs(frac - idx) / float(nn.max() - 1)
+            distinct = len({tuple(r) for r in idx.astype(int).tolist()})
+            in_range = bool(np.all(idx >= 0) and np.all(idx <= nn - 1))
+            run.compare(mon, "generator=%s clause=grid-points" % name,
+                        on_grid if (in_range and distinct == len(idx) == int(np.prod(nn))) else np.inf, 1e-12,
+                        "%s: the points are not the nodes of the uniform grid with n = %s points per axis (%d points, %d distinct nodes)"
+                        % (name, nn.tolist(), len(idx), distinct), unit=tool + ":grid-points", config=(name, "grid-points"))
+            if len(obj.cells) == int(np.prod(nn - 1)):
+                run.ok(mon, unit=tool + ":cell-count")
+            else:
+                run.fail(mon, "generator=%s clause=cell-count" % name, "%s: %d cells for n = %s" % (name, len(obj.cells), nn.tolist()))
+    elif name == "Grid" and expected is not None:
+        want_cells = int(np.prod([len(x) - 1 for x in a.get("xi", ())]))
+        if len(obj.cells) == want_cells:
+            run.ok(mon, unit=tool + ":cell-count")
+        else:
+            run.fail(mon, "generator=Grid clause=cell-count", "Grid: %d cells, expected %d" % (len(obj.cells), want_cells))
+    elif name in ("Circle", "Triangle") and "n" in a and np.isscalar(a["n"]) and int(a["n"]) >= 2:
+        # three blocks of (n - 1)^2 cells and n^2 points per section, joined along lines of n points: a triangle / a quarter has
+        # Q = 3 n^2 - 3 n + 1 points; quarter sections exactly 90 degrees apart share a radius of 2 n - 1 points, all share the centre
+        nn = int(a["n"])
+        Q = 3 * nn * nn - 3 * nn + 1
+        small = 10.0 ** (-a.get("decimals", 10))
+        if name == "Triangle":
+            k, shared, ok = 1, 0, expected is not None and small * 1e4 * nn < min(np.linalg.norm(pb - pa), np.linalg.norm(pc - pb), np.linalg.norm(pa - pc))
+        else:
+            sec = [float(x) for x in a["sections"]]
+            gaps = [abs((x - y) % 360) for i, x in enumerate(sec) for y in sec[i + 1:]]
+            k, shared = len(sec), sum(1 for g in gaps if g in (90.0, 270.0))
+            ok = all((90.0 <= g <= 270.0) and (g in (90.0, 270.0) or 90.0 + 1e-3 < g < 270.0 - 1e-3) for g in gaps) and small * 1e4 * nn < 1
+        if ok:
+            want_p, want_c = k * (Q - 1) - shared * (2 * nn - 2) + 1, 3 * k * (nn - 1) ** 2
+            if (len(obj.points), len(obj.cells)) == (want_p, want_c):
+                run.ok(mon, unit=tool + ":counts", config=(name, "counts"))
+            else:
+                run.fail(mon, "generator=%s clause=counts" % name, "%s(n=%d): %d points and %d cells, expected %d and %d"
+                         % (name, nn, len(obj.points), len(obj.cells), want_p, want_c), unit=tool + ":counts")
     # the intended domain, not only its measure: bounds, grid coordinates, corners
     if name in ("Line", "Rectangle", "Cube") and expected is not None:
         run.compare(mon, "generator=%s clause=bounds" % name, max(maxabs(obj.points.min(0) - lo), maxabs(obj.points.max(0) - hi)), 1e-13 * max(1.0, maxabs(hi), maxabs(lo)),
@@ -515,20 +1008,143 @@ def post_generator(run, obj, a):
 
 
 # ------------------------------------------------------------------------------------------ attachment
+# The documented defaults of the tools (docstrings of felupe.mesh / felupe.Mesh), stated here: the value of an argument the caller
+# did not pass is what the documentation says, not what the signature of the code under test happens to hold.
+DOC_DEFAULTS = {
+    "expand": dict(n=11, z=1, axis=-1, expand_dim=True),
+    "revolve": dict(n=11, phi=180, axis=0, expand_dim=True),
+    "rotate": dict(center=None, mask=None),
+    "translate": dict(),
+    "mirror": dict(normal=[1, 0, 0], centerpoint=[0, 0, 0], axis=None),
+    "flip": dict(mask=None),
+    "triangulate": dict(mode=3),
+    "convert": dict(order=0, calc_points=False, calc_midfaces=False, calc_midvolumes=False),
+    "merge_duplicate_points": dict(decimals=None),
+    "merge_duplicate_cells": dict(),
+    "add_midpoints_edges": dict(cell_type=None),
+    "add_midpoints_faces": dict(cell_type=None),
+    "add_midpoints_volumes": dict(cell_type=None),
+    "disconnect": dict(points_per_cell=None, calc_points=True),
+    "collect_edges": dict(), "collect_faces": dict(), "collect_volumes": dict(),
+    "fill_between": dict(n=11),
+    "add_runouts": dict(values=[0.1, 0.1], centerpoint=[0, 0, 0], axis=0, exponent=5, mask=slice(None), normalize=False),
+}
+
+
+def _with_defaults(name, ba):
+    d = dict(ba.arguments)
+    if name in DOC_DEFAULTS:
+        return dict(DOC_DEFAULTS[name], **d)
+    ba.apply_defaults()
+    return dict(ba.arguments)
+
+
+def _bind(orig, self, args, kwargs, name=None):
+    try:
+        # (the method's own parameters: ``collect_*`` carry the documentation of the module-level functions by functools.wraps)
+        ba = inspect.signature(orig, follow_wrapped=False).bind(self, *args, **kwargs)
+        d = _with_defaults(name, ba)
+        d.pop("self", None)
+        return d
+    except TypeError:
+        return None
+
+
+def _embedded_ok(name, before, a):
+    """Inputs of expand / revolve that the oracle cannot measure by themselves but whose sweep it can: points (vertex cells) and
+    bodies that already live in the space they are swept in (``expand_dim=False``)."""
+    if name not in ("expand", "revolve"):
+        return False
+    if before.cell_type == "vertex":
+        return True
+    return (not a.get("expand_dim", True)) and before.cell_type in ("line", "quad") and before.points.shape[1] == OC.DIM[before.cell_type] + 1
+
+
+def judge(run, name, fn, before, result, a, orig=None):
+    """The post-condition of one tool call (method, module-level function with a mesh or with arrays)."""
+    if not valid(before) and not _embedded_ok(name, before, a):
+        run.skip("mesh." + name, "input mesh not valid / not supported by the oracle")
+        return
+    result_type(run, name, before, result, a)
+    if orig is not None:
+        fn(run, name, before, result, a, orig)
+    else:
+        fn(run, name, before, result, a)
+
+
+POST = {"rotate": post_rigid, "translate": post_rigid, "mirror": post_mirror, "flip": post_flip, "triangulate": post_triangulate,
+        "expand": post_expand, "revolve": post_revolve, "add_midpoints_edges": post_midpoints, "add_midpoints_faces": post_midpoints,
+        "add_midpoints_volumes": post_midpoints, "convert": post_convert, "disconnect": post_disconnect,
+        "merge_duplicate_points": post_merge, "merge_duplicate_cells": post_merge_cells, "collect_edges": post_collect,
+        "collect_faces": post_collect, "collect_volumes": post_collect, "add_runouts": post_runouts}
+
+STYLES = ("mesh", "keywords", "points-positional", "points-cells-positional", "all-positional")
+
+
+def call_function(run, name, mesh, style, *args, **kwargs):
+    """Call the module-level tool ``felupe.mesh.<name>`` (the spelling of most documented examples) with the mesh or with one of the
+    four documented ways to hand over ``points, cells, cell_type`` as arrays, and judge the result by the post-condition of the
+    tool.  ``args`` / ``kwargs`` are the tool's own arguments.  Returns a mesh (built from the returned arrays for the array styles)."""
+    import felupe as fem
+    f = getattr(fem.mesh, name)
+    before = Snapshot(mesh)
+    P, C, T = mesh.points, mesh.cells, mesh.cell_type
+    if style == "mesh":
+        res = f(mesh, *args, **kwargs)
+    elif style == "keywords":
+        res = f(*args, points=P, cells=C, cell_type=T, **kwargs)
+    elif style == "points-positional":
+        res = f(P, *args, cells=C, cell_type=T, **kwargs)
+    elif style == "points-cells-positional":
+        res = f(P, C, *args, cell_type=T, **kwargs)
+    elif style == "all-positional":
+        res = f(P, C, T, *args, **kwargs)
+    else:
+        raise KeyError(style)
+    with attach.guard():
+        run.seen("mesh.function." + name)
+        if style == "mesh":
+            ok = hasattr(res, "points") and hasattr(res, "cells") and isinstance(res, getattr(mesh, "__mesh__", object))
+            out = res
+        else:
+            ok = isinstance(res, tuple) and len(res) == 3
+            out = Res(*res) if ok else None
+        if ok:
+            run.ok("mesh.function." + name, unit="call-style:" + style, config=("call-style", name, style))
+        else:
+            run.fail("mesh.function." + name, "tool=%s clause=return-kind style=%s" % (name, style),
+                     "felupe.mesh.%s (%s): returns %s instead of %s" % (name, style, type(res).__name__, "a mesh" if style == "mesh" else "(points, cells, cell_type)"))
+            return res
+        if not np.array_equal(before.points, mesh.points) or not np.array_equal(before.cells, mesh.cells):
+            run.fail("mesh.function." + name, "tool=%s clause=input-untouched" % name,
+                     "felupe.mesh.%s (%s) changed the points / cells it was given" % (name, style))
+        else:
+            run.ok("mesh.function." + name, unit="function:input-untouched")
+        # the arguments as the caller passed them, by the names of the tool's own signature
+        try:
+            ba = inspect.signature(f).bind(P, C, T, *args, **kwargs)
+            a = {k: v for k, v in ba.arguments.items() if k not in ("points", "cells", "cell_type")}
+        except TypeError:
+            return res
+        if "cell_type_new" in a:
+            a["cell_type"] = a.pop("cell_type_new")
+        a = dict(DOC_DEFAULTS.get(name, {}), **a)
+        fn = POST.get(name)
+        if fn is not None:
+            run.units["function:" + name] += 1
+            if name == "flip":
+                judge(run, name, fn, before, out, a, orig=lambda o, mask=None: Res(*fem.mesh.flip(o.points, o.cells, o.cell_type, mask=mask)))
+            else:
+                judge(run, name, fn, before, out, a)
+    if style == "mesh":
+        return res
+    return fem.Mesh(*res)
+
+
 def attach_hooks(run):
     import felupe as fem
     from felupe.mesh import _mesh as MM
     Mesh = MM.Mesh
-
-    def bind(orig, self, args, kwargs):
-        try:
-            ba = inspect.signature(orig).bind(self, *args, **kwargs)
-            ba.apply_defaults()
-            d = dict(ba.arguments)
-            d.pop("self", None)
-            return d
-        except TypeError:
-            return None
 
     def method_hook(name, fn, needs_orig=False):
         orig = Mesh.__dict__[name]
@@ -541,7 +1157,7 @@ def attach_hooks(run):
             if exc is not None or result is None:
                 return
             run.seen("mesh." + name)
-            a = bind(orig, self, args, kwargs)
+            a = _bind(orig, self, args, kwargs, name)
             if a is None:
                 return
             before = ctx if ctx is not None else self
@@ -550,42 +1166,65 @@ def attach_hooks(run):
                          "%s returns a new mesh but also changed the points / cells of the mesh it was called on" % name)
             else:
                 run.ok("mesh." + name, unit="input-untouched")
-            if not valid(before):
-                run.skip("mesh." + name, "input mesh not valid / not supported by the oracle")
-                return
-            if needs_orig:
-                fn(run, name, before, result, a, orig)
-            else:
-                fn(run, name, before, result, a)
+            judge(run, name, fn, before, result, a, orig if needs_orig else None)
         attach.wrap_method(Mesh, name, pre=pre, post=post)
 
-    method_hook("rotate", post_rigid)
-    method_hook("translate", post_rigid)
-    method_hook("mirror", post_mirror)
-    method_hook("flip", post_flip, needs_orig=True)
-    method_hook("triangulate", post_triangulate)
-    method_hook("expand", post_expand)
-    method_hook("revolve", post_revolve)
-    method_hook("add_midpoints_edges", post_midpoints)
-    method_hook("add_midpoints_faces", post_midpoints)
-    method_hook("add_midpoints_volumes", post_midpoints)
-    method_hook("convert", post_convert)
-    method_hook("disconnect", post_disconnect)
-    method_hook("merge_duplicate_points", post_merge)
+    for name, fn in POST.items():
+        method_hook(name, fn, needs_orig=(name == "flip"))
+
+    # fill_between: two input meshes; the module-level function (the method of the mesh calls it)
+    orig_fb = fem.mesh._tools.fill_between
+
+    def bind_fb(args, kwargs):
+        try:
+            ba = inspect.signature(orig_fb).bind(*args, **kwargs)
+            return _with_defaults("fill_between", ba)
+        except TypeError:
+            return None
+
+    def pre_fb(args, kwargs):
+        a = bind_fb(args, kwargs)
+        if a is None or not all(hasattr(a.get(k), "points") and hasattr(a.get(k), "cells") for k in ("mesh", "other_mesh")):
+            return None
+        return Snapshot(a["mesh"]), Snapshot(a["other_mesh"]), a
+
+    def post_fb(args, kwargs, ctx, result, exc):
+        if exc is not None or result is None or ctx is None:
+            return
+        run.seen("mesh.fill_between")
+        m, o, a = ctx
+        if all(np.array_equal(b.points, x.points) and np.array_equal(b.cells, x.cells) for b, x in ((m, a["mesh"]), (o, a["other_mesh"]))):
+            run.ok("mesh.fill_between", unit="input-untouched")
+        else:
+            run.fail("mesh.fill_between", "tool=fill_between clause=input-untouched", "fill_between changed the points / cells of one of its two input meshes")
+        post_fill_between(run, "fill_between", m, o, result, a)
+    attach.wrap_function(orig_fb, pre=pre_fb, post=post_fb)
 
     for fname in ("concatenate", "stack"):
         orig = getattr(fem.mesh._tools, fname)
 
+        def pre(args, kwargs):
+            meshes = args[0] if args else kwargs.get("meshes")
+            try:
+                return [Snapshot(m) for m in meshes]
+            except Exception:
+                return None
+
         def post(args, kwargs, ctx, result, exc, fname=fname):
-            if exc is not None:
+            if exc is not None or ctx is None:
                 return
             meshes = args[0] if args else kwargs.get("meshes")
             run.seen("mesh." + fname)
-            if not all(valid(m) for m in meshes):
+            # the parts are read, never written (a part whose cells were shifted in place would be a wrong mesh afterwards)
+            if all(np.array_equal(b.points, m.points) and np.array_equal(b.cells, m.cells) for b, m in zip(ctx, meshes)):
+                run.ok("mesh." + fname, unit=fname + ":input-untouched")
+            else:
+                run.fail("mesh." + fname, "tool=%s clause=input-untouched" % fname, "%s changed the points / cells of one of its parts" % fname)
+            if not all(valid(m) for m in ctx):
                 run.skip("mesh." + fname, "an input mesh is not valid / not supported")
                 return
-            post_concat(run, fname, list(meshes), result)
-        attach.wrap_function(orig, post=post)
+            post_concat(run, fname, ctx, result)
+        attach.wrap_function(orig, pre=pre, post=post)
 
     G = fem.mesh
     for cls in (G.Line, G.Rectangle, G.Cube, G.Grid, G.Circle, G.Triangle, G.RectangleArbitraryOrderQuad,
